@@ -134,7 +134,8 @@ class Facts:
 
     def _names(self, names):
         if not names:
-            return [d for d in self.drivers if d != "bitpack"]
+            # x_* drivers (e.g. the custom-allocator instantiation) are analysed only by the rules that ask for them by name
+            return [d for d in self.drivers if d != "bitpack" and not d.startswith("x_")]
         # thorough tier: the extra instantiation drivers (t_*) are analysed together with every family
         return list(names) + [d for d in self.drivers if d.startswith("t_") and d not in names]
 
